@@ -139,7 +139,7 @@ func c36Payload(serial, size, kind int) []byte {
 	if fill < 0 {
 		fill = 0
 	}
-	out := make([]byte, 0, len(prefix)+fill+len(suffix))
+	out := make([]byte, 0, len(prefix)+fill+len(suffix)+8)
 	out = append(out, prefix...)
 	if kind == 0 {
 		pat := fmt.Sprintf("0x%08x,block-data-%d;", serial*2654435761, serial)
@@ -149,12 +149,13 @@ func c36Payload(serial, size, kind int) []byte {
 		out = out[:len(prefix)+fill]
 	} else {
 		x := uint64(serial)*0x9E3779B97F4A7C15 + 1
-		for i := 0; i < fill; i++ {
+		for i := 0; i < fill; i += 8 {
 			x ^= x << 13
 			x ^= x >> 7
 			x ^= x << 17
-			out = append(out, byte(x>>24))
+			out = append(out, byte(x), byte(x>>8), byte(x>>16), byte(x>>24), byte(x>>32), byte(x>>40), byte(x>>48), byte(x>>56))
 		}
+		out = out[:len(prefix)+fill]
 	}
 	return append(out, suffix...)
 }
@@ -240,9 +241,16 @@ func (w *c36World) key(e *c36Entry, who string) []byte {
 
 func (w *c36World) watcher() {
 	r := w.r
-	for !w.done && r.Violated() == nil {
+	for pass := 0; !w.done && r.Violated() == nil; pass++ {
+		// mostly short naps (to land between the steps of a client), long ones once clients sleep
+		d := time.Duration(1+r.Draw("watch", 40)) * time.Millisecond
+		if pass > 60 {
+			d = time.Duration(1+r.Draw("watch", 20)) * time.Minute
+		} else if pass > 30 {
+			d = time.Duration(1+r.Draw("watch", 10)) * time.Second
+		}
 		simrt.Yield("harness:watcher-sleep")
-		time.Sleep(time.Duration(1+r.Draw("watch", 40)) * time.Millisecond)
+		time.Sleep(d)
 		simrt.Resume("harness:watcher-sleep")
 		for _, e := range w.pool {
 			now := c36Marshal(e.obj)
@@ -650,7 +658,7 @@ func runC36(r *simrt.Run) {
 	})
 	inBubble(r, func(s *simrt.Sched) {
 		w := &c36World{r: r, recs: map[int]*c36Rec{}, latest: map[string]int64{"ETH1": 100, "ETH1T": 100, "LAV1": 100, "LAV1T": 100}}
-		if r.Chance("cfg", 1, 3) {
+		if r.Chance("cfg", 1, 4) {
 			w.bigLeft = 1 + r.Draw("cfg", 2)
 			if r.Tier == "thorough" {
 				w.bigLeft += 3
@@ -718,9 +726,9 @@ func init() {
 		NonTrivial: func(r *simrt.Run) bool {
 			return r.Ops["get:hit"] >= 2 && r.Ops["set:ok"] >= 3 && r.Ops["get:miss"] >= 1 && r.Switches >= 20
 		},
-		Rule:    "1-4 client tasks issue SetRelay/GetRelay against the real RelayerCacheServer (three ristretto caches, fake clock) for a pool of 17-51 request objects: 1-3 base requests (JSON-RPC single and batch, REST, Tendermint-RPC) and, per base, one variant per dimension - method, params, api url, chain id, requested block (+1 and latest), api interface, connection type, addon, extensions, header name, header value (must separate) and JSON-RPC id, salt, seen block, request/task/tx ids (must not matter). Keys come from the real chainlib.HashCacheRequest on request objects shared by all tasks and a watcher task; every message crosses a proto Marshal/Unmarshal. Sets are finalized / non-finalized with one of two block hashes or none, node-error or not, with shared-state id or not; every stored reply is unique (serial number inside), compressible JSON or incompressible bytes, 30 B - 64 KB mostly, in a third of the runs up to 2 (thorough 5) payloads at threshold-1, threshold, threshold+1 ... 3 MB. Clients also sleep 300 ms - 61 min of fake time (TTL expiry) and advance the chain's latest block. Non-trivial = >=2 hits, >=3 sets, >=1 miss, >=20 context switches; distinct = (op,outcome) sequence x context-switch sequence",
+		Rule:    "1-4 client tasks issue SetRelay/GetRelay against the real RelayerCacheServer (three ristretto caches, fake clock) for a pool of 17-51 request objects: 1-3 base requests (JSON-RPC single and batch, REST, Tendermint-RPC) and, per base, one variant per dimension - method, params, api url, chain id, requested block (+1 and latest), api interface, connection type, addon, extensions, header name, header value (must separate) and JSON-RPC id, salt, seen block, request/task/tx ids (must not matter). Keys come from the real chainlib.HashCacheRequest on request objects shared by all tasks and a watcher task; every message crosses a proto Marshal/Unmarshal. Sets are finalized / non-finalized with one of two block hashes or none, node-error or not, with shared-state id or not; every stored reply is unique (serial number inside), compressible JSON or incompressible bytes, 30 B - 64 KB mostly, in a quarter of the runs up to 2 (thorough 5) payloads at threshold-1, threshold, threshold+1 ... 3 MB. Clients also sleep 300 ms - 61 min of fake time (TTL expiry) and advance the chain's latest block. Non-trivial = >=2 hits, >=3 sets, >=1 miss, >=20 context switches; distinct = (op,outcome) sequence x context-switch sequence",
 		Real:    []string{"ecosystem/cache RelayerCacheServer SetRelay/GetRelay/getRelayInner/findInAllCaches/formatHashKey/formatCacheValue/CacheValue.ToCacheReply, latest-block and shared-state bookkeeping incl. its validation goroutines (instrumented copies through the build overlay)", "github.com/dgraph-io/ristretto/v2 caches (own goroutines, TTL on the synctest fake clock)", "protocol/chainlib HashCacheRequest + ecosystem/cache/format JSON-RPC id formatter", "protocol/common CompressData/DecompressData (gzip)", "gogoproto Marshal/Unmarshal of RelayCacheSet/RelayCacheGet/CacheRelayReply"},
-		Stubbed: []string{"gRPC transport and listener (messages are marshalled and unmarshalled instead)", "consumer/provider clients (tape-driven tasks)", "prometheus metrics (disabled option), periodic cache-size loop (cancelled at start)", "ristretto frequency-sketch size reduced (NumCounters 1e5 instead of 1e8; the rest of InitCache's configuration is copied)"},
+		Stubbed: []string{"gRPC transport and listener (messages are marshalled and unmarshalled instead)", "consumer/provider clients (tape-driven tasks)", "prometheus metrics (disabled option), periodic cache-size loop (cancelled at start)", "ristretto frequency-sketch size reduced (NumCounters 2e4 instead of 1e8; the rest of InitCache's configuration is copied)"},
 		Assume:  []string{"code between two instrumented synchronisation points is atomic in the simulation: HashCacheRequest contains none, so its temporary in-place edits of the shared request are never observed half-way (the statement only claims the request is unchanged afterwards)", "a miss is always legal; expiry times are not checked", "requests with a negative requested block (latest) may be answered from any block the cache resolves latest to", "ristretto MaxCost is large enough that nothing is evicted (eviction sampling is random)"},
 	})
 }
@@ -747,7 +755,7 @@ var useRealInit = os.Getenv("VERIF_C36_REAL_INIT") == "1"
 
 func c36NewRistretto(cs *CacheServer) *ristretto.Cache[string, any] {
 	c, err := ristretto.NewCache(&ristretto.Config[string, any]{
-		NumCounters: 100000,
+		NumCounters: 20000,
 		MaxCost:     cs.CacheMaxCost,
 		BufferItems: 64,
 		Metrics:     true,
